@@ -730,11 +730,18 @@ pub fn check_c17(case: &Case, st: &mut Stats) -> Verdict {
             Case::Cursor(c) if c.spec.entries.len() <= 5000 => Some(c.spec.entries.materialize()),
             Case::Iter(c) if c.spec.entries.len() <= 5000 => Some(c.spec.entries.materialize()),
             Case::File(c) if c.spec.entries.len() <= 5000 && c.big.is_none() => Some(c.spec.entries.materialize()),
+            // merged outputs are built from several stored values: here nothing stored may hold even two
+            // consecutive poison bytes (a run could otherwise be assembled across a value boundary)
+            Case::Merge(m) if m.sources.iter().map(|s| s.entries.len()).sum::<usize>() <= 5000 => Some(m.sources.iter().flat_map(|s| s.entries.materialize()).collect()),
+            Case::Sort(s) if s.inserts.len() <= 5000 => Some(s.inserts.materialize()),
             _ => None,
         };
         if let Some(stored) = stored {
+            let merged = matches!(case, Case::Merge(_) | Case::Sort(_));
             let has_run = |b: &[u8]| b.windows(8).any(|w| w.iter().all(|x| *x == 0xDD));
-            if !stored.iter().any(|(k, v)| has_run(k) || has_run(v)) {
+            let has_pair = |b: &[u8]| b.windows(2).any(|w| w[0] == 0xDD && w[1] == 0xDD) || (b.len() == 1 && b[0] == 0xDD);
+            let clean = if merged { !stored.iter().any(|(k, v)| has_pair(k) || has_pair(v)) } else { !stored.iter().any(|(k, v)| has_run(k) || has_run(v)) };
+            if clean {
                 for (i, rec) in r.recs.iter().enumerate() {
                     if let Res::Entry(k, v) = &rec.res {
                         if has_run(k) || has_run(v) {
